@@ -12,7 +12,7 @@ CONSTANTS
   TriCerts <- Tri
   TriTrailers <- Tri
   TriHdh1 <- Tri
-  TriGet = {"unset", "false"}
+  TriGet = {"unset"}
   TriLim = {"unset"}
   EntryPool = {}
   MaxInc = 0
